@@ -42,14 +42,14 @@ ASSUMPTIONS = [
     'BlockSliceQuery.find_proposal_injection is excluded: it calls a non-existent OperationListListQuery.find_votes after the search returns '
     '(a defect outside this statement).',
 ]
-EXPECTED_PROBES = ['search_aborted_by_definitive_failure', 'slice_reused_for_second_search', 'change_at_last_plus_1', 'change_at_head', 'adjacent_changes', 'step_exceeds_range', 'no_change_in_range', 'fault_during_search',
+EXPECTED_PROBES = ['chain_extended_between_two_searches', 'none_valued_history', 'search_aborted_by_definitive_failure', 'slice_reused_for_second_search', 'change_at_last_plus_1', 'change_at_head', 'adjacent_changes', 'step_exceeds_range', 'no_change_in_range', 'fault_during_search',
                    'chain_grew_during_search']
 
 PKH = 'tz1VSUr8wwNhLAzempoch5d6hLRiTh8Cjcjb'
 VOTERS = ['tz1Ke2h7sDdakHJQh8WX4Z372du1KChsksyU', 'tz1aSkwEot3L2kmUvcoxzjMomb9mvBNuzFK6', 'tz1gjaF81ZRRvdzjobyfVNsAeSC6PScjfQwN', 'tz1faswCTDciRzE4oJ9jn2Vm2dvjeyA9fUzU']
 PROP_A = 'PsD5wVTJc3Bv7U9yo9oNgnbQm8S8iTBLxzX5JHVNtSLRC6xdLRR'
 PROP_B = 'PtSeouLouXkxhg39oWzjxDWaCydNfR3RxCUrNe4Q9Ro8BTehcbh'
-KINDS = ['changes:counter', 'changes:ballots', 'changes:proposals', 'single:counter', 'walk:counter', 'api:ballots', 'api:upvotes', 'api:origination']
+KINDS = ['changes:counter', 'changes:ballots', 'changes:proposals', 'changes:kt', 'single:counter', 'walk:counter', 'api:ballots', 'api:upvotes', 'api:origination']
 
 
 def gen(seed, tier):
@@ -104,7 +104,7 @@ def gen(seed, tier):
                 [{'f': 'transient', 'n': rng.randint(1, 5), 'status': rng.choice([500, 502, 503])}, {'f': 'preval', 'n': rng.randint(1, 5)},
                  {'f': 'latency', 'ms': rng.choice([10, 3000, 20000])}]
             )
-    if kind != 'api:origination' and rng.random() < 0.2:
+    if kind not in ('api:origination', 'changes:kt') and rng.random() < 0.2:
         # one definitive failure (retry budget exhausted, permanent 5xx, connection error) somewhere in the search: the search may
         # give up with an error, but if it returns a result the result must still be exact
         faults = dict(faults)
@@ -120,11 +120,18 @@ def gen(seed, tier):
         outside = []
         if slice_mode == 'neg':
             baker = False  # a growing chain would move the start of a head-relative range
-    return {
+    scn_out = {
         'prop': ID, 'kind': kind, 'H': H, 'head': head, 'last': last, 'step': step, 'changes': changes, 'outside': outside,
         'faults': faults, 'baker': baker, 'latency_ms': rng.choice([0, 0, 5, 400]), 'nvotes': rng.choice([1, 1, 2, 3]),
         'slice_mode': slice_mode, 'presearch': kind.startswith('api:') and rng.random() < 0.35, 'steps': [],
     }
+    if scn_out['slice_mode'] == 'open' and rng.random() < 0.6:
+        # the same open slice object is searched, the chain then moves on (new votes included), and it is searched again
+        scn_out['presearch'] = True
+        scn_out['baker'] = False
+        k = rng.choice([1, 2, 5, 30])
+        scn_out['grow_between'] = {'levels': k, 'changes': sorted({rng.randint(1, k) for _ in range(rng.choice([1, 1, 2]))})}
+    return scn_out
 
 
 def _vote_op(kind, i, source, level):
@@ -139,31 +146,41 @@ def _vote_op(kind, i, source, level):
             'branch': oc.block_hash(b'x'), 'contents': [content], 'signature': 'sigVote'}
 
 
-def build_chain(node, scn):
-    """Bake H levels; returns the recorded history {level: value} of the tracked quantity and
-    (for api kinds) the operations expected per level."""
+def build_chain(node, scn, S=None, levels=None, changes=None):
+    """Bake levels (default 1..H); returns the builder state S with the recorded history S['hist'] = {level: value} of the
+    tracked quantity and (for api kinds) the operations expected per level.  Calling it again with the returned state and
+    further `levels` extends the same chain (the chain moves on between two searches)."""
     kind = scn['kind']
     what = kind.split(':')[1]
-    changes = set(scn['changes']) | set(scn['outside'])
-    hist = {}
-    expected_ops = {}
-    ctr = 10
-    ballots = {'yay': 0, 'nay': 0, 'pass': 0}
-    rolls = {PROP_A: 0, PROP_B: 0}
-    kt = oc.b58enc('KT1', oc.blake2b(b'c29-contract', 20))
-    if what == 'counter':
-        node.tracked['ctr:' + PKH] = ctr
-    elif what == 'ballots':
-        node.tracked['ballots'] = dict(ballots)
-    elif what in ('proposals', 'upvotes'):
-        node.tracked['proposals'] = []
-    hist[0] = None
-    noise_i = 0
-    for lvl in range(1, scn['H'] + 1):
+    if S is None:
+        S = {'hist': {0: None}, 'expected_ops': {}, 'ctr': 10, 'ballots': {'yay': 0, 'nay': 0, 'pass': 0}, 'rolls': {PROP_A: 0, PROP_B: 0},
+             'kt': oc.b58enc('KT1', oc.blake2b(b'c29-contract', 20)), 'noise_i': 0, 'ktctr': None}
+        if what == 'counter':
+            node.tracked['ctr:' + PKH] = S['ctr']
+        elif what == 'ballots':
+            node.tracked['ballots'] = dict(S['ballots'])
+        elif what in ('proposals', 'upvotes'):
+            node.tracked['proposals'] = []
+        if what == 'counter':
+            S['hist'][0] = '10'
+        elif what == 'ballots':
+            S['hist'][0] = {'yay': 0, 'nay': 0, 'pass': 0}
+        elif what == 'proposals':
+            S['hist'][0] = []
+        elif what == 'upvotes':
+            S['hist'][0] = 0
+    changes = (set(scn['changes']) | set(scn['outside'])) if changes is None else set(changes)
+    levels = range(1, scn['H'] + 1) if levels is None else levels
+    hist, expected_ops, ballots, rolls, kt = S['hist'], S['expected_ops'], S['ballots'], S['rolls'], S['kt']
+    for lvl in levels:
         if lvl in changes:
             if what == 'counter':
-                ctr += 1 + (lvl % 3)
-                node.tracked['ctr:' + PKH] = ctr
+                S['ctr'] += 1 + (lvl % 3)
+                node.tracked['ctr:' + PKH] = S['ctr']
+            elif what == 'kt':
+                # a contract that does not exist (value None) until its origination, then a counter that moves
+                S['ktctr'] = 0 if S['ktctr'] is None else S['ktctr'] + 1 + (lvl % 2)
+                node.tracked['kt:' + kt] = S['ktctr']
             elif what == 'ballots':
                 ops = []
                 for i in range(scn['nvotes'] if kind.startswith('api') else 1):
@@ -194,9 +211,9 @@ def build_chain(node, scn):
                     expected_ops[lvl] = [op['hash']]
         elif kind.startswith('api:') and (lvl * 7 + scn['H']) % 11 == 0:
             # noise that must not be reported: an upvote for another proposal / an origination of another contract
-            noise_i += 1
+            S['noise_i'] += 1
             if what in ('ballots', 'upvotes'):
-                op = _vote_op('other', noise_i, VOTERS[lvl % len(VOTERS)], lvl)
+                op = _vote_op('other', S['noise_i'], VOTERS[lvl % len(VOTERS)], lvl)
                 if what == 'upvotes':
                     rolls[PROP_B] += 7
                     node.tracked['proposals'] = [[p, r] for p, r in rolls.items() if r]
@@ -211,7 +228,9 @@ def build_chain(node, scn):
                 )
         node.bake()
         if what == 'counter':
-            hist[lvl] = str(ctr)
+            hist[lvl] = str(S['ctr'])
+        elif what == 'kt':
+            hist[lvl] = None if S['ktctr'] is None else str(S['ktctr'])
         elif what == 'ballots':
             hist[lvl] = dict(ballots)
         elif what == 'proposals':
@@ -220,15 +239,7 @@ def build_chain(node, scn):
             hist[lvl] = rolls[PROP_A]
         elif what == 'origination':
             hist[lvl] = '0' if ('kt:' + kt) in node.tracked else None
-    if what in ('counter',):
-        hist[0] = '10'
-    elif what == 'ballots':
-        hist[0] = {'yay': 0, 'nay': 0, 'pass': 0}
-    elif what == 'proposals':
-        hist[0] = []
-    elif what == 'upvotes':
-        hist[0] = 0
-    return hist, expected_ops, kt
+    return S
 
 
 def execute(scn, want_log=False):
@@ -241,7 +252,8 @@ def execute(scn, want_log=False):
     sim = core.Sim()
     node = nodesim.SimNode(sim, {'block_delay_s': 8})
     node.add_account(PKH, counter=10)
-    hist, expected_ops, kt = build_chain(node, scn)
+    S = build_chain(node, scn)
+    hist, expected_ops, kt = S['hist'], S['expected_ops'], S['kt']
     tr = core.Transport(sim, node.handle, latency_ms=scn['latency_ms'], max_requests=6000)
     faults = {k: v for k, v in scn['faults'].items() if k != 'hard_at'}
     hard_at = scn['faults'].get('hard_at')
@@ -269,7 +281,6 @@ def execute(scn, want_log=False):
         detail.update(kind=scn['kind'], head=head, last=last, step=step, changes=scn['changes'])
         violations.append({'kind': k, 'sig': f'C29/{sig}', 'detail': detail})
 
-    exp_changes = [(l, hist[l]) for l in range(last + 1, head + 1) if hist[l] != hist[l - 1]]
     level0 = node.head['level']
     result = None
     err = None
@@ -287,7 +298,16 @@ def execute(scn, want_log=False):
         def get_proposals(lvl):
             return shell.blocks[lvl].votes.proposals()
 
-        getter = {'counter': get_counter, 'ballots': get_ballots, 'proposals': get_proposals}.get(what)
+        def get_kt_counter(lvl):
+            # the library's own idiom (find_origination): a contract that does not exist yet reads as None
+            from pytezos.rpc.node import RpcError as _RpcError
+
+            try:
+                return shell.blocks[lvl].context.contracts[kt].counter()
+            except _RpcError:
+                return None
+
+        getter = {'counter': get_counter, 'ballots': get_ballots, 'proposals': get_proposals, 'kt': get_kt_counter}.get(what)
         eq = lambda a, b: a == b  # noqa: E731
         sim.ev('search_begin', kind=scn['kind'], head=head, last=last, step=step)
         try:
@@ -318,6 +338,16 @@ def execute(scn, want_log=False):
                             sl.find_origination(oc.b58enc('KT1', oc.blake2b(b'never-originated', 20)))
                         except Exception:  # noqa: BLE001  (a contract that never appears: whatever the helper does, it must not poison the next search)
                             pass
+                    gb = scn.get('grow_between')
+                    if gb:
+                        # the chain moves on between the two searches on the same (open) slice
+                        was = node.baker_on
+                        node.baker_on = False
+                        top = node.head['level']
+                        build_chain(node, scn, S, levels=range(top + 1, top + 1 + gb['levels']), changes=[top + c for c in gb['changes']])
+                        node.baker_on = was
+                        head = node.head['level'] - 1  # an open slice ends at the current head; the helper searches up to head - 1
+                        bump('chain_extended_between_two_searches')
                 if what == 'ballots':
                     result = [op['hash'] for op in sl.find_ballots()]
                 elif what == 'upvotes':
@@ -329,6 +359,7 @@ def execute(scn, want_log=False):
         except Exception as e:  # noqa: BLE001
             err = e
         node.baker_on = False
+    exp_changes = [(l, hist[l]) for l in range(last + 1, head + 1) if hist[l] != hist[l - 1]]
     sim.ev('search_end', result=json.dumps(result, default=str)[:600], err=(type(err).__name__ + ':' + str(err)[:200]) if err else None)
 
     # ---- probes
@@ -344,6 +375,8 @@ def execute(scn, want_log=False):
         bump('no_change_in_range')
     if scn.get('presearch'):
         bump('slice_reused_for_second_search')
+    if what == 'kt':
+        bump('none_valued_history')
     if sim.stats.get('fault:transient', 0) + sim.stats.get('fault:preval', 0) + sim.stats.get('fault:latency', 0):
         bump('fault_during_search')
     if node.head['level'] > level0:
@@ -453,7 +486,11 @@ def simplify(scn):
         c = cp()
         c['slice_mode'] = 'closed'
         yield c
-    if scn.get('presearch'):
+    if scn.get('grow_between'):
+        c = cp()
+        del c['grow_between']
+        yield c
+    if scn.get('presearch') and not scn.get('grow_between'):
         c = cp()
         c['presearch'] = False
         yield c
@@ -510,7 +547,7 @@ def valid(scn):
     ords = sorted(int(k) for k in scn['faults'] if k != 'hard_at' and int(k) < 200)
     if any(b - a < 7 for a, b in zip(ords, ords[1:])) or any(d.get('n', 0) > 5 for k, d in scn['faults'].items() if k != 'hard_at' and int(k) < 200):
         return False
-    if 'hard_at' in scn['faults'] and scn['kind'] == 'api:origination':
+    if 'hard_at' in scn['faults'] and scn['kind'] in ('api:origination', 'changes:kt'):
         return False
     api = scn['kind'].startswith('api:')
     orig = scn['kind'] == 'api:origination'
@@ -519,6 +556,8 @@ def valid(scn):
             return False
         if scn['slice_mode'] == 'neg' and scn['baker']:
             return False
+    if scn.get('grow_between') and (scn.get('slice_mode') != 'open' or not scn.get('presearch') or scn['baker']):
+        return False
     if scn['step'] < 1 or not (scn['last'] < scn['head'] < scn['H']):
         return False
     if orig:
